@@ -275,6 +275,8 @@ type expTarget struct {
 	kind     string
 	// wantType: the declared type (block addressable "as type of" an attribute holding a type declaration)
 	wantType *cty.Type
+	// wantNested: addresses of the written attributes an inferred body-as-data target must hold as nested targets
+	wantNested []string
 }
 
 func resolveBlockAddr(steps schema.Address, blk *hclsyntax.Block) (string, bool) {
@@ -389,15 +391,40 @@ func c09Expected(e *model.Eff, body *hclsyntax.Body, unknownOK bool, out *[]expT
 					}
 					*out = append(*out, et)
 				}
-				if bs.Address.BodyAsData {
-					*out = append(*out, expTarget{addr: addr, rng: b.Range(), def: &def, kind: "block-body-as-data"})
+				if bs.Address.BodyAsData || bs.Address.DependentBodyAsData {
+					et := expTarget{addr: addr, rng: b.Range(), def: &def, kind: "block-body-as-data"}
+					// inferred data: every written attribute of the addressable part of the effective body is an element
+					ce := model.EffectiveIn(e, bs, b)
+					for name := range b.Body.Attributes {
+						_, static := map[string]*schema.AttributeSchema{}[name]
+						if bs.Body != nil {
+							_, static = bs.Body.Attributes[name]
+						}
+						dep := false
+						if ce.Dep != nil {
+							_, dep = ce.Dep.Attributes[name]
+						}
+						// (only where the element's existence is beyond doubt: a literal of the primitive type the attribute declares)
+						as := ce.Attributes[name]
+						if as == nil || !plainLiteralOf(as.Constraint, b.Body.Attributes[name].Expr) {
+							continue
+						}
+						if (static && !dep && bs.Address.BodyAsData && bs.Address.InferBody) || (dep && bs.Address.DependentBodyAsData && bs.Address.InferDependentBody) {
+							et.wantNested = append(et.wantNested, addr+"."+name)
+						}
+					}
+					sort.Strings(et.wantNested)
+					if !bs.Address.BodyAsData {
+						et.kind = "block-dependent-body-as-data"
+					}
+					*out = append(*out, et)
 				}
 				if bs.Address.SupportUnknownNestedRefs {
 					*out = append(*out, expTarget{addr: addr, rng: b.Range(), def: &def, kind: "block-unknown-nested"})
 				}
 			}
 		}
-		if bs.Body == nil {
+		if bs.Body == nil && len(bs.DependentBody) == 0 {
 			continue
 		}
 		ce := model.EffectiveIn(e, bs, b)
@@ -438,6 +465,21 @@ func c09TopLevel(cx *explore.Ctx, q run.Query, got reference.Targets, body *hcls
 			continue
 		}
 		okType, okDef := false, false
+		if len(e.wantNested) > 0 {
+			cx.L.Count("inferred_element_checks", 1)
+			have := map[string]bool{}
+			for _, t := range ts {
+				for _, n := range t.NestedTargets {
+					have[n.Addr.String()] = true
+				}
+			}
+			for _, n := range e.wantNested {
+				if !have[n] {
+					add("targets:inferred-element-missing", e.kind, fmt.Sprintf("%s is addressable as data with an inferred body, but its written attribute %s is no nested target (nested: %v)", e.addr, n, boolKeys(have)))
+					break
+				}
+			}
+		}
 		if e.wantType != nil {
 			cx.L.Count("declared_type_checks", 1)
 			has := false
@@ -488,7 +530,7 @@ func unknownItems(e *model.Eff, body *hclsyntax.Body, out *[]hcl.Range) {
 			*out = append(*out, b.Range())
 			continue
 		}
-		if bs.Body == nil {
+		if bs.Body == nil && len(bs.DependentBody) == 0 {
 			continue
 		}
 		unknownItems(model.EffectiveIn(e, bs, b), b.Body, out)
@@ -530,4 +572,35 @@ func C09(tier string) int {
 			Rule:         "E1 sweep over every catalogue schema (addressable blocks: as reference, as type of an attribute, body-as-data with inferred bodies and list/set/map/object nested blocks, dependent-body-as-data, self references, targetable-as; addressable attributes as reference / as expression type, any-attribute bodies, wide bodies) x seed configs, their prefixes and single-token edits. On every forest: nested address = parent + exactly one step (absolute and local alike), numeric steps are 0..k-1 in source order, steps unique, elements of a written value inside the value's range, element ranges pairwise disjoint, definition range inside range. On cleanly parsing files additionally: every range is the extent of a real item of the syntax tree; every addressable declaration whose address resolves (model written from the statement: static/label/attribute-value steps, optional steps, count.index / each.* where enabled) has its target with the declaration's extent and header; as-reference targets are type-less; no target inside an item unknown to the effective schema. non-trivial = non-empty forest",
 			Assumptions:  []string{"types of expression-typed targets are not predicted (only nil vs non-nil for as-reference)", "list-typed nested blocks that do not follow each other have no single extent: parent-contains-element is only required for written values (expressions)"},
 			BiteCounters: []string{"targets_checked", "expected_top_level"}}, nil)
+}
+
+
+func boolKeys(m map[string]bool) []string {
+	out := make([]string, 0, len(m))
+	for k := range m {
+		out = append(out, k)
+	}
+	sort.Strings(out)
+	return out
+}
+
+
+// plainLiteralOf: expr is a literal string/number/bool and cons is LiteralType or AnyExpression of exactly that type.
+func plainLiteralOf(cons schema.Constraint, expr hclsyntax.Expression) bool {
+	var want cty.Type
+	switch c := cons.(type) {
+	case schema.LiteralType:
+		want = c.Type
+	case schema.AnyExpression:
+		want = c.OfType
+	default:
+		return false
+	}
+	switch x := expr.(type) {
+	case *hclsyntax.LiteralValueExpr:
+		return !x.Val.IsNull() && x.Val.Type() == want && (want == cty.Number || want == cty.Bool)
+	case *hclsyntax.TemplateExpr:
+		return x.IsStringLiteral() && want == cty.String
+	}
+	return false
 }
